@@ -40,8 +40,11 @@ Theorem render_output_depends_on_arguments_only : forall O ps d p args s1 s2 k,
   | (o1, _, k1), (o2, _, k2) => o1 = o2 /\ k1 = k2
   end.
 Proof. exact NonInterf.render_noninterference. Qed.
+(* the for-form evaluates its arguments again for every item, in the caller's runtime as the previous items left
+   it (their increments are visible to an argument that names a counter): stated for arguments whose value does
+   not depend on the runtime *)
 Theorem render_for_output_depends_on_arguments_only : forall O ps d p rng x args s1 s2 k,
-  eval_expr O p s1 = eval_expr O p s2 -> eval_range O rng s1 = eval_range O rng s2 -> eval_args O args s1 [] = eval_args O args s2 [] ->
+  eval_expr O p s1 = eval_expr O p s2 -> eval_range O rng s1 = eval_range O rng s2 -> (forall t1 t2, eval_args O args t1 [] = eval_args O args t2 []) ->
   ixobj (fr s1) = ixobj (fr s2) ->
   match rnode O ps (render O ps d) (NRender p (Some (rng, x)) args) s1 k, rnode O ps (render O ps d) (NRender p (Some (rng, x)) args) s2 k with
   | (o1, _, k1), (o2, _, k2) => o1 = o2 /\ k1 = k2
